@@ -1,66 +1,11 @@
 /-
-The rest of `Step()` and of the CPU's exported control surface: the interrupt latch, `nmi()` / `irq()`, `Reset()`,
-`TriggerIRQ()` / `triggerNMI()` (emulator/cpu65c816/cpu.go and emulator/cpualt/cpu.go — the bodies are identical up to
-the receiver syntax).
-
-    switch cpu.Interrupt { case interruptNMI: cpu.nmi(); case interruptIRQ: cpu.irq() }
-    cpu.Interrupt = interruptNone
-    … fetch / decode / execute (`Cpu.step`) …
-
-`Step` always leaves the latch at `interruptNone`, and nothing inside `Step` reads it after the switch; only the
-trigger functions (called between steps) set it.  The latch is therefore modelled as an *input* of the step
-(`stepFull v latch`), its value after the step being the constant `interruptNone`.  The three constants are
-regenerated from each package (`Gen.primary_interruptNMI` …).
+Totality and cycle / stop bookkeeping of the interrupt entry, the full `Step()` and `Reset()` (model: Cpu/InterruptModel.lean).
 -/
+import SnesVerif.Cpu.InterruptModel
 import SnesVerif.Cpu.Cycles
 namespace Cpu
 open Gen
 set_option maxRecDepth 100000
-
-/-- `nmi()`: push PC, push P (`op_php`), vector `$00FFEA`, I := 1, `Cycles += 7` (dead: `Step` reloads `Cycles`) -/
-def nmi : Ex Unit := do
-  let c ← get
-  push16 c.PC
-  let c ← get
-  push (flagsByte c)
-  let pc ← nRead16_cross 0 0xFFEA
-  modify fun c => { c with PC := pc, I := true, Cycles := c.Cycles + 7 }
-
-/-- `irq()`: push PBR, PC, P; I := 1, D := 0, PBR := 0, vector `$00FFEE` -/
-def irq : Ex Unit := do
-  let c ← get
-  push c.RK
-  push16 c.PC
-  let c ← get
-  push (flagsByte c)
-  modify fun c => { c with I := true, D := false, RK := 0 }
-  let pc ← nRead16_cross 0 0xFFEE
-  modify fun c => { c with PC := pc }
-
-/-- the latch constants of a package -/
-def latchNone : Variant → Nat | .primary => primary_interruptNone | .alt => alt_interruptNone
-def latchNMI : Variant → Nat | .primary => primary_interruptNMI | .alt => alt_interruptNMI
-def latchIRQ : Variant → Nat | .primary => primary_interruptIRQ | .alt => alt_interruptIRQ
-
-/-- the `switch cpu.Interrupt` at the top of `Step` (any other latch value falls through) -/
-def service (v : Variant) (latch : Nat) : Ex Unit :=
-  if latch = latchNMI v then nmi else if latch = latchIRQ v then irq else pure ()
-
-/-- the whole of `Step()` for a given value of the interrupt latch; the latch afterwards is `latchNone v` -/
-def stepFull (v : Variant) (latch : Nat) : Ex Unit := do
-  service v latch
-  step v
-
-/-- `TriggerIRQ()`: latch an IRQ unless interrupts are disabled; returns the new latch value -/
-def triggerIRQ (v : Variant) (c : Regs) (latch : Nat) : Nat := if c.I then latch else latchIRQ v
-/-- `triggerNMI()` -/
-def triggerNMI (v : Variant) : Nat := latchNMI v
-
-/-- `Reset()` -/
-def reset : Ex Unit := do
-  modify fun c => { c with SP := 0x01FF, RD := 0, RK := 0, RDBR := 0 }
-  let pc ← nRead16_cross 0 0xFFFC
-  modify fun c => { setFlags 0x34 { c with PC := pc } with Stopped := false }
 
 /-! ### totality (C08) -/
 
